@@ -355,6 +355,7 @@ PROPS = {
         level_text='Lean 4 theorems over the model (coherence of all accepted combinations, by case analysis over the attribute record and induction over field lists) + exhaustive L1 on the 3136-combination matrix + model-free law checks on compiled programs',
     ),
     'C03': dict(
+        explanation='theorems: the where-clause every builder threads through its WhereClauseBuilder equals the documented walk; with no bound(..) anywhere it is the declared predicates plus exactly the used field types that mention a parameter (absent_contrib, default_fields_exact). L1 compares every where-clause token for token; the well-typed grammar of C20 has rustc confirm that the generated impls type-check.',
         theorems=[(CMP + 'C04', ['DX.absent_contrib', 'DX.default_fields_exact', 'DX.clone_struct_default_where',
                                  'DX.clone_struct_where', 'DX.clone_enum_where', 'DX.copy_enum_where', 'DX.copy_struct_where',
                                  'DX.ops_where', 'DX.default_struct_where', 'DX.default_struct_where_value', 'DX.debug_struct_where', 'DX.selBounds_walk', 'DX.cmp_struct_where', 'DX.cmp_enum_where', ]),
@@ -369,6 +370,7 @@ PROPS = {
         level_text='partial: Lean theorems that the where-clause threaded by every builder (Clone, Copy, operators, Default, Debug, Deref, the five comparison traits; structs and enums) is the declarative walk, and that with no bound(..) it consists of the declared predicates plus exactly the used field types mentioning a parameter; L1 compares every where-clause token for token; "applies to an instantiation exactly when" is rustc\'s trait solver: validated by the well-typed grammar of C20, not proved',
     ),
     'C04': dict(
+        explanation="theorems: for every derivable trait on structs and enums the builder's flag-threading equals Plan.whereClause (reached levels contribute verbatim, continue iff absent or `..`, a stop is local, the declared where-clause is retained; comparison helpers most specific first; Default walks the default variant only). L1: the `bounds` family assigns every bound(..) shape to every level.",
         theorems=[(CMP + 'C04Enum', ['DX.debug_enum_where', 'DX.default_enum_where', 'DX.default_enum_where_value', 'DX.debugExpr_where', 'DX.deref_where']),
                   (CMP + 'C04', ['DX.clone_struct_where', 'DX.clone_enum_where', 'DX.copy_enum_where', 'DX.copy_struct_where',
                                  'DX.ops_where', 'DX.default_struct_where', 'DX.default_struct_where_value', 'DX.debug_struct_where', 'DX.selBounds_walk', 'DX.cmp_struct_where', 'DX.cmp_enum_where', 
@@ -396,12 +398,14 @@ PROPS = {
         explanation='theorems: a trait is refused iff some field is misused for it (M1-M3), misplaced arguments are refused, entries are isolated; L1: accept/reject class of every segment over the exhaustive matrix',
     ),
     'C06': dict(
+        explanation='theorems: the derived hash feeds exactly the documented effective inputs of the non-ignored fields in order (feed_follows_doc), equal inputs give equal feeds for every hasher, prefix-free codes make the feed injective. L1 exhaustive matrix; L2 `cmpRun` with a recording hasher; directed probe from an L1 disagreement.',
         theorems=[(CMP + 'C06', ['DX.feed_follows_doc', 'DX.equal_inputs_equal_feed', 'DX.feed_injective'])],
         l1=[('cmp1', 'all', 'all'), ('cmpN', 4000, 200000)],
         labels=r':Hash$',
         extra=extra_cmp_l2('cmpRun', ('hash',), 1200, 24000),
     ),
     'C17': dict(
+        explanation="theorem: the hidden Eq assertion covers exactly the fields that take part in equality, or their key value; ignored and by-compared fields are exempt (eq_assert_exact). L1; L2: rustc's accept / refuse verdict against that rule, also with Hash derived and #[hash(ignore)].",
         theorems=[(CMP + 'C17', ['DX.eq_assert_exact'])],
         l1=[('cmp1', 'all', 'all'), ('cmpN', 4000, 200000)],
         extra=extra_verdicts(l2gen.gen_c17_case, 480, 6000),
@@ -411,6 +415,7 @@ PROPS = {
 
 PROPS.update({
     'C07': dict(
+        explanation='theorems: clone is one Clone::clone per field in order into the same variant; clone_from is one clone_from per field for the same variant / struct and a clone of the source otherwise (clone_from_spec). L1; L2 `cloneRun`: expected values and call logs computed in Lean from Sem (Copy alongside, split lists, bound(..) on fields and variants, generic field types), plus call-recording programs and std twins.',
         theorems=[(CMP + 'C07', ['DX.clone_fieldwise', 'DX.clone_struct_fields', 'DX.clone_enum_fields',
                                  'DX.clone_from_same_variant', 'DX.clone_from_other_variant', 'DX.clone_from_spec'])],
         l1=[('basic', 4000, 150000), ('all', 3000, 100000)],
@@ -418,6 +423,7 @@ PROPS.update({
         labels=r':Clone$',
     ),
     'C08': dict(
+        explanation='theorems: the eight reference forms are emitted in the documented order and each acts field-wise with the left operand on the left, one call per field (bin/assign/un_fieldwise, forms_agree). L1; L2 `opsRun` from Sem over a free monoid that records operator, operand order and reference form (generic fields, field-level bound(..)).',
         theorems=[('DeriveExModel.Props.Tables', ['DX.trait_table_model', 'DX.trait_table_complete']), (CMP + 'C08', ['DX.forms_emitted', 'DX.ops_one_impl_per_form', 'DX.bin_fieldwise', 'DX.assign_fieldwise',
                                  'DX.un_fieldwise', 'DX.ops_fields', 'DX.forms_agree'])],
         l1=[('ops', 4000, 150000), ('all', 3000, 100000)],
@@ -425,6 +431,7 @@ PROPS.update({
         labels=r':(Add|BitAnd|BitOr|BitXor|Div|Mul|Rem|Shl|Shr|Sub|Neg|Not)(Assign)?(#\d)?$',
     ),
     'C09': dict(
+        explanation='theorems: which forms are emitted from a user impl, that each forwards to the base form with clones exactly where a reference must become a value, OpAssign from Op is `*self = &self op rhs`, Op from OpAssign is `{ a op= b; a }`, Output / generics / where-clause carry over with Self expanded. L1 `impl` family; L2 `fwdRun` (values and call logs from FwdImpl.call, composed through the generated forms) and logging user impls written with Self.',
         theorems=[('DeriveExModel.Props.Tables', ['DX.trait_table_model', 'DX.trait_table_complete']), (CMP + 'C09', ['DX.clone_exactly_when_needed', 'DX.binary_forwards_to_base', 'DX.assign_is_op',
                                  'DX.op_from_assign', 'DX.emitted_binary_forms', 'DX.emitted_forms', 'DX.carries_over'])],
         l1=[('impl', 6000, 200000)],
@@ -432,6 +439,7 @@ PROPS.update({
         labels=r'^impl|^err$',
     ),
     'C10': dict(
+        explanation='theorems: without a transparent field the Formatter builder calls are those of the standard derive on the type with its ignored fields deleted; one transparent field delegates to it with the same formatter; two are rejected. L1; L2 `debugRun` (text computed in Lean from the trace under four format specs) and std twins under ten format specs.',
         theorems=[(CMP + 'C10', ['DX.debug_trace_is_std', 'DX.transparent_delegates', 'DX.two_transparent_rejected',
                                  'DX.debug_struct_trace'])],
         l1=[('basic', 4000, 150000), ('all', 3000, 100000)],
@@ -439,6 +447,7 @@ PROPS.update({
         labels=r':Debug$',
     ),
     'C11': dict(
+        explanation="theorems: default() is the type-level value if given, else the struct / marked variant / only variant with every field at its documented value, Into exactly for string literals and paths; enums with no or several marked variants and a value on a variant's #[default(..)] are rejected. L1; L2 `defaultRun` (text from the structured value), expected Debug text, rejections.",
         theorems=[(CMP + 'C11', ['DX.defaultCtorArgs_vals', 'DX.into_iff_strlit_or_path', 'DX.default_struct_follows_doc',
                                  'DX.default_enum_rejections', 'DX.default_enum_follows_doc'])],
         l1=[('basic', 4000, 150000), ('all', 3000, 100000)],
@@ -446,6 +455,7 @@ PROPS.update({
         labels=r':Default$',
     ),
     'C12': dict(
+        explanation="theorems: without helper attributes the documented rules proved for C01/C06/C07/C10/C11 are the standard derive's rules (plain_* corollaries). L2: the same definition under derive_ex and under the standard derives over a shape grammar (empty enums, unsized last field, raw identifiers, lifetimes, const parameters, defaults, where-clauses, associated-type field types), compared on all values.",
         theorems=[(CMP + 'C12', ['DX.plain_record', 'DX.plain_accepted', 'DX.plain_eq_is_std', 'DX.plain_cmp_is_std',
                                  'DX.plain_pcmp_is_std', 'DX.plain_hash_is_fieldwise', 'DX.plain_debug_is_std',
                                  'DX.plain_default_is_std']),
@@ -457,6 +467,7 @@ PROPS.update({
         level_text='Lean corollaries: for attribute-free items the documented rule proved in C01/C06/C07/C10/C11 is the standard derive\'s rule; L2: twin programs (same definition under derive_ex and under derive) over a shape grammar incl. empty enums, unsized tails, raw identifiers, lifetimes, const parameters, parameter defaults; all values / pairs, ten format specs, clone_from over all pairs; the compile-on-every-shape part is decided by rustc, not by a theorem',
     ),
     'C13': dict(
+        explanation='theorems: for every item and argument list every token the expander writes literally is punctuation, a keyword, a primitive type, a literal, a `__`-reserved name or one of three block-local names; every other generated identifier is a segment of an absolute ::core path, a member name or attribute content (attr_output_hygienic, derive_output_hygienic over provenance-carrying tokens). L1 ties every token to the implementation; L2: the well-typed grammar under a hostile-name dictionary in four scopes.',
         theorems=[(CMP + 'C13Hyg', ['DX.attr_output_hygienic', 'DX.derive_output_hygienic', 'DX.hyg_makeIdent', 'DX.absPath_anchored', 'DX.kind_paths_rooted']), (CMP + 'C20', ['DX.introduced_names_reserved', 'DX.makeIdent_shape', 'DX.helper_free_of_field_type',
                                  'DX.expandSelf_no_self']),
                   ('DeriveExModel.Props.Tables', ['DX.trait_table_model'])],
@@ -469,6 +480,7 @@ PROPS.update({
         level_note='Trusted: rustc as the oracle; the generator of well-typed programs (bin/l2gen.py); the rule set is validated against rustc, not proved complete.',
     ),
     'C20': dict(
+        explanation="theorems: the rule set the emitted templates obey (helper items free of the field type, Self-expanded generics in the free Eq-assertion function, parenthesised && operands, by-value empty match) and the hygiene theorem; the model accepts exactly the documented uses (C05). L2: a grammar of well-typed items compiled under #![deny(warnings)]; every rustc diagnostic located in derive_ex's output is a violation.",
         theorems=[(CMP + 'C13Hyg', ['DX.attr_output_hygienic', 'DX.derive_output_hygienic']), (CMP + 'C20', ['DX.helper_free_of_field_type', 'DX.expandSelf_no_self', 'DX.cmp_generics_self_expanded',
                                  'DX.thisTy_no_self', 'DX.eq_conjuncts_parenthesised', 'DX.empty_match_by_value',
                                  'DX.introduced_names_reserved']),
@@ -482,6 +494,7 @@ PROPS.update({
         level_note='Trusted: rustc as the oracle; the generator of well-typed programs (bin/l2gen.py); the rule set is validated against rustc, not proved complete.',
     ),
     'C14': dict(
+        explanation='theorems: the re-emitted item is the input minus exactly the attributes the documentation assigns to the derived traits, on success, on a per-trait error and when the argument list itself is rejected; impl items and unsupported items verbatim (reemit_*, foreign_kept, underived_helper_kept). L1 item segment on families rich in foreign and helper-like attributes; L2 through the real entry points.',
         theorems=[('DeriveExModel.Props.Tables', ['DX.isMatch_table_model', 'DX.isMatch_table_doc', 'DX.isMatch_table_complete']), (CMP + 'C14', ['DX.isMatch_extend', 'DX.reemit_exact_struct', 'DX.reemit_exact_enum',
                                  'DX.reemit_on_arg_error_struct', 'DX.reemit_on_arg_error_enum', 'DX.reemit_impl',
                                  'DX.reemit_other', 'DX.item_always_emitted', 'DX.foreign_kept', 'DX.strip_is_sublist',
@@ -494,6 +507,7 @@ PROPS.update({
                      extra_verdicts(l2gen.gen_c14_error_case, 48, 600)),
     ),
     'C15': dict(
+        explanation='theorems: the impls are the same through either entry point, for merged and split lists, in list order (entry_equiv_*, split_equiv, order_preserved). Metamorphic real-vs-real comparisons need no model: attribute macro vs #[derive(Ex)], merged vs split, one trait alone vs with the others.',
         theorems=[('DeriveExModel.Props.Tables', ['DX.isMatch_table_model', 'DX.isMatch_table_doc', 'DX.isMatch_table_complete']), (CMP + 'C15', ['DX.entry_equiv_struct', 'DX.entry_equiv_enum', 'DX.entry_equiv_segments_struct',
                                  'DX.entry_equiv_segments_enum', 'DX.split_equiv', 'DX.order_preserved', 'DX.fromAttrs_congr'])],
         l1=[('all', 4000, 150000), ('cmp1all', 20000, 'all'), ('bounds', 2000, 50000)],
@@ -501,6 +515,7 @@ PROPS.update({
         extra=extra_meta('c15', 3000, 60000),
     ),
     'C16': dict(
+        explanation="theorems: the model is a total function (accepted by Lean's termination checker) whose output is a list of items or error segments and is deterministic. Transfer to the implementation: catch_unwind around every expansion of every L1 case, each expanded twice; structure-aware mutation fuzzer over the test-suite / documentation corpus with rustc's parser as second opinion.",
         theorems=[('DeriveExModel.Props.Tables', ['DX.trait_table_model', 'DX.trait_table_complete']), (CMP + 'C16', ['DX.output_shape', 'DX.attr_output_nonempty', 'DX.derive_rejects_with_one_error',
                                  'DX.core_error_single', 'DX.deterministic'])],
         l1=[('wild', 5000, 200000), ('strip', 2000, 50000), ('impl', 2000, 50000), ('cmpWild', 2000, 50000), ('other', 500, 5000)],
@@ -510,12 +525,14 @@ PROPS.update({
         level_text='partial: totality and determinism are proved of the Lean model (total functions, accepted by the termination checker) and transferred to the implementation only through the L1 runs (catch_unwind around every expansion, every case expanded twice and compared, output re-parsed as items) and the mutation fuzzer; a Lean model cannot exhibit a Rust panic on inputs outside its input language',
     ),
     'C18': dict(
+        explanation="theorems: accepted exactly for single-field structs; the returned reference is to the place self.<field> and Target is the field's declared type (arity_rejected, deref_is_field_place). L1; L2: address and type identity, write-through, rejections, unsized targets.",
         theorems=[(CMP + 'C18', ['DX.arity_rejected', 'DX.deref_is_field_place'])],
         l1=[('ops', 4000, 150000)],
         extra=extras(extra_programs(l2gen.gen_c18_program, 240, 4800, what='Deref / DerefMut do not target the single field itself'), extra_verdicts(l2gen.gen_c18_reject_case, 96, 1000)),
         labels=r':Deref(Mut)?$',
     ),
     'C19': dict(
+        explanation='theorems: the payload of a dumped entry is token for token the concatenation of what the entry would otherwise have generated; no builder, and not the set of stripped attributes, looks at a dump flag (dump_payload, build_ignores_dump_*, kinds_ignore_dump, dump_impl). Metamorphic: the same request with and without dump.',
         theorems=[(CMP + 'C19', ['DX.build_ignores_dump_struct', 'DX.build_ignores_dump_enum', 'DX.dump_payload',
                                  'DX.dump_of_error', 'DX.kinds_ignore_dump', 'DX.dump_impl', 'DX.fwd_ignores_dump'])],
         l1=[('dump', 5000, 150000), ('impl', 2000, 40000)],
